@@ -151,9 +151,10 @@ def iterInOrder (cfg : DCfg) (al : Align) (steps : List Step) (xs ys : List PyVa
   if !cfg.zip && xs.all isBasic && ys.all isBasic then
     let ops := al xs ys
     let pass1 := keepReported cfg (opcodeEntries steps xs ys ops)
-    if pass1.length > 1 then
+    if pass1.length ≥ 1 then
       let pass2 := keepReported cfg (pairBasic steps 0 0 xs ys)
-      if pass1.length ≥ pass2.length then ⟨pass2, []⟩ else ⟨pass1, [(steps, ops)]⟩
+      if pass1.length == 1 then (if pass2.length == 0 then ⟨pass2, []⟩ else ⟨pass1, []⟩)
+      else if pass1.length ≥ pass2.length then ⟨pass2, []⟩ else ⟨pass1, [(steps, ops)]⟩
     else ⟨pass1, []⟩
   else pairwise ()
 
